@@ -23,7 +23,8 @@
 (***************************************************************************)
 EXTENDS Integers, Sequences, FiniteSets, TLC, Json
 
-CONSTANTS RY, RX, NY, NX, NS, NM, Pos,   \* ROI, object grid, slices, modes, scan positions <<r, c>>
+CONSTANTS RY, RX, NY, NX, NS, NM, Pos,   \* ROI, object grid, slices, modes, scan positions <<r, c>> in HALF pixels (doubled)
+          Half,                           \* TRUE: some position is a half pixel (ROI 2x2 only): probes are Fourier-shifted
           PropR, PropC,                   \* Fresnel exponent per axis: phase = (-i)^(PropR*a^2 + PropC*b^2)
           TwiddleBug                      \* negative control: wrong twiddle exponent
 
@@ -55,7 +56,18 @@ Probe0(md, i, j) ==
   ELSE (IF i = (RY - 1) /\ j = 0 THEN <<1, 1>> ELSE IF i = 0 /\ j = RX - 1 THEN <<1, -1>> ELSE <<0, 0>>)
 \* optional perturbation of the probe: pixel (0, 0) of mode 0 turned by a quarter turn
 Probe(md, i, j) == IF pert.probe /\ md = 0 /\ i = 0 /\ j = 0 THEN ZMul(Probe0(md, i, j), <<0, 1>>) ELSE Probe0(md, i, j)
-Patch(pn, sl, i, j) == Q(sl, (Pos[pn][1] + FFreq(i, RY)) % NY, (Pos[pn][2] + FFreq(j, RX)) % NX)
+\* integer part (round half to even, as torch.round) and remaining half-pixel fraction (-1, 0, 1) of a doubled position
+RoundHalfEven(num, den) ==
+  LET fl == num \div den  r2 == 2 * (num % den) IN
+  IF r2 < den THEN fl ELSE IF r2 > den THEN fl + 1 ELSE IF fl % 2 = 0 THEN fl ELSE fl + 1
+PosI(pn) == <<RoundHalfEven(Pos[pn][1], 2), RoundHalfEven(Pos[pn][2], 2)>>
+Frac2(pn) == <<Pos[pn][1] - (2 * PosI(pn)[1]), Pos[pn][2] - (2 * PosI(pn)[2])>>
+Patch(pn, sl, i, j) == Q(sl, (PosI(pn)[1] + FFreq(i, RY)) % NY, (PosI(pn)[2] + FFreq(j, RX)) % NX)
+\* sub-pixel placement of the probe (Fourier shift by +frac): on a 2-point axis the ramp exp(-2 pi i k s),
+\* k = a/2 (a = 0, -1), s = f/2 (f = -1, 0, 1) is (-i)^(a f) - exact; the Nyquist term is NOT symmetrised
+ShiftPhase(pn, k) == NegIPow((FFreq(k[1], RY) * Frac2(pn)[1]) + (FFreq(k[2], RX) * Frac2(pn)[2]))
+ASSUME Half => (RY = 2 /\ RX = 2)
+ASSUME ~Half => \A pn \in DOMAIN Pos : Pos[pn][1] % 2 = 0 /\ Pos[pn][2] % 2 = 0
 
 \* 2-D DFT of a ROI-sized array f; twiddle (-i)^(4 u x / R)
 DFT(f, u, v) ==
@@ -75,14 +87,24 @@ PropPhase(k) == NegIPow((PropR * FFreq(k[1], RY) * FFreq(k[1], RY)) + (PropC * F
 Params == [a : {0, 1, 3}, b : {1, 2}, d : {0, 1}, p : {0, 1}]
 NoPert == [on |-> FALSE, probe |-> FALSE, s |-> 0, r |-> 0, c |-> 0]
 \* perturbations: a quarter turn on one illuminated object pixel
-Perts == {NoPert, [NoPert EXCEPT !.probe = TRUE]} \cup {[on |-> TRUE, probe |-> FALSE, s |-> sl, r |-> (Pos[pn][1] + FFreq(x[1], RY)) % NY, c |-> (Pos[pn][2] + FFreq(x[2], RX)) % NX]
+Perts == {NoPert, [NoPert EXCEPT !.probe = TRUE]} \cup {[on |-> TRUE, probe |-> FALSE, s |-> sl, r |-> (PosI(pn)[1] + FFreq(x[1], RY)) % NY, c |-> (PosI(pn)[2] + FFreq(x[2], RX)) % NX]
                           : sl \in {NS - 1}, pn \in {1, Len(Pos)}, x \in {<<0, 0>>, <<1, 0>>}}
 
 Init == /\ par \in Params /\ pert \in Perts
         /\ n = 1 /\ m = 0 /\ s = 0 /\ stage = "start" /\ wave = [x \in ROI |-> <<0, 0>>] /\ acc = Zero /\ pats = <<>>
 
 Start ==      /\ stage = "start"
-              /\ wave' = [x \in ROI |-> Probe(m, x[1], x[2])] /\ stage' = "probe"
+              /\ wave' = [x \in ROI |-> Probe(m, x[1], x[2])] /\ stage' = IF Half THEN "rawprobe" ELSE "probe"
+              /\ UNCHANGED <<par, pert, n, m, s, acc, pats>>
+\* sub-pixel probe placement (only when Half): DFT, phase ramp, inverse DFT (scaled by RY*RX)
+ShiftSpec ==  /\ stage = "rawprobe"
+              /\ wave' = [k \in ROI |-> DFT(wave, k[1], k[2])] /\ stage' = "probespec"
+              /\ UNCHANGED <<par, pert, n, m, s, acc, pats>>
+ShiftRamp ==  /\ stage = "probespec"
+              /\ wave' = [k \in ROI |-> ZMul(wave[k], ShiftPhase(n, k))] /\ stage' = "proberamp"
+              /\ UNCHANGED <<par, pert, n, m, s, acc, pats>>
+ShiftBack ==  /\ stage = "proberamp"
+              /\ wave' = [x \in ROI |-> IDFTn(wave, x[1], x[2])] /\ stage' = "probe"
               /\ UNCHANGED <<par, pert, n, m, s, acc, pats>>
 Transmit ==   /\ stage \in {"probe", "propagated"}
               /\ wave' = [x \in ROI |-> ZMul(wave[x], IPow(Patch(n, s, x[1], x[2])))] /\ stage' = "transmitted"
@@ -104,12 +126,13 @@ Detect ==     /\ stage = "transmitted" /\ s = NS - 1
                    ELSE /\ pats' = Append(pats, newacc) /\ acc' = Zero /\ m' = 0
                         /\ IF n < Len(Pos) THEN n' = n + 1 /\ stage' = "start" ELSE n' = n /\ stage' = "done"
               /\ s' = 0 /\ UNCHANGED <<par, pert, wave>>
-Next == Start \/ Transmit \/ ToSpectrum \/ Propagate \/ Back \/ Detect
+Next == Start \/ ShiftSpec \/ ShiftRamp \/ ShiftBack \/ Transmit \/ ToSpectrum \/ Propagate \/ Back \/ Detect
 Spec == Init /\ [][Next]_vars
 
 ---------------------------------------------------------------------------
 \* integer numerators: I[u, v] = pats[n][u, v] / Scale,  Scale = (RY*RX)^(2*(NS-1)+1)
-Scale == LET P[k \in 0..(2 * (NS - 1) + 1)] == IF k = 0 THEN 1 ELSE P[k - 1] * (RY * RX) IN P[2 * (NS - 1) + 1]
+ScaleExp == (2 * (NS - 1)) + 1 + (IF Half THEN 2 ELSE 0)       \* the placed probe is scaled by RY*RX when Half
+Scale == LET P[k \in 0..ScaleExp] == IF k = 0 THEN 1 ELSE P[k - 1] * (RY * RX) IN P[ScaleExp]
 ProbeNorm(md) == LET F[t \in 0..(RY * RX)] == IF t = 0 THEN 0 ELSE F[t - 1] + ZNorm2(Probe(md, (t - 1) \div RX, (t - 1) % RX)) IN F[RY * RX]
 TotalProbe == LET F[md \in 0..NM] == IF md = 0 THEN 0 ELSE F[md - 1] + ProbeNorm(md - 1) IN F[NM]
 SumOf(f) == LET F[t \in 0..(RY * RX)] == IF t = 0 THEN 0 ELSE F[t - 1] + f[<<(t - 1) \div RX, (t - 1) % RX>>] IN F[RY * RX]
@@ -117,9 +140,10 @@ SumOf(f) == LET F[t \in 0..(RY * RX)] == IF t = 0 THEN 0 ELSE F[t - 1] + f[<<(t 
 IntensityConserved == \A i \in DOMAIN pats : SumOf(pats[i]) = Scale * TotalProbe
 \* the energy of the wave is conserved by every step (up to the known integer scale of DFT / IDFTn)
 WaveEnergy == LET e == SumOf([x \in ROI |-> ZNorm2(wave[x])])
-                  k == IF stage \in {"spectrum", "kernel"} THEN (2 * s) + 1 ELSE 2 * s
+                  k == (IF stage \in {"spectrum", "kernel"} THEN (2 * s) + 1 ELSE 2 * s)
+                       + (IF Half /\ stage \notin {"rawprobe", "probespec", "proberamp"} THEN 2 ELSE IF stage \in {"probespec", "proberamp"} THEN 1 ELSE 0)
                   P[j \in 0..k] == IF j = 0 THEN 1 ELSE P[j - 1] * (RY * RX)
-              IN stage \in {"probe", "transmitted", "spectrum", "kernel", "propagated"} => e = P[k] * ProbeNorm(m)
+              IN stage \in {"rawprobe", "probespec", "proberamp", "probe", "transmitted", "spectrum", "kernel", "propagated"} => e = P[k] * ProbeNorm(m)
 Orthogonal == NM = 2 =>
    LET F[t \in 0..(RY * RX)] == IF t = 0 THEN <<0, 0>>
             ELSE LET i == (t - 1) \div RX  j == (t - 1) % RX IN
